@@ -103,42 +103,59 @@ func blockToSeqPair(alignedBlock alignedBlockInfo, ref []byte) alignPair {
 	if len(insertions) > 0 {
 		sort.Sort(byStart(insertions))
 
-		// if we are going to insert multiple insertions into one pair then we will need to keep track
-		// of the coordinate offset after the first one
-		offsets := make([]int, len(alignedBlock.seqpairArray))
-
 		// for every insertion
 		for _, insertion := range insertions {
 			// this is the pair it is already present in, which we will skip:
 			rowNumber := insertion.rowNumber
-			for j, seqPair := range alignedBlock.seqpairArray {
+			for j := range alignedBlock.seqpairArray {
 				// don't reinsert - the insertion already exists in this one
 				if j == rowNumber {
 					continue
 				}
 
-				// if the insertions starts after the (offset) length of this sequence,
+				// find the column in this pair that follows the reference base the insertion
+				// comes after. Columns that are gaps in the reference row (this record's own
+				// insertions, or gaps put in for earlier insertions) don't count towards it.
+				k := -1
+				if insertion.start == 0 {
+					k = 0
+				} else {
+					refBases := 0
+					for c, nuc := range refSeqArray[j] {
+						if nuc != '-' {
+							refBases++
+						}
+						if refBases == insertion.start {
+							k = c + 1
+							break
+						}
+					}
+				}
+
+				// if the insertion starts after the end of this sequence,
 				// we don't have to do anything to this pair here
-				if insertion.start > len(alignedBlock.seqpairArray[j].ref)-offsets[j] {
+				if k == -1 {
 					continue
 				}
 
 				// otherwise, we make a slice of gaps to insert into the slices
 				gaps := make([]byte, insertion.length)
-				for k := range gaps {
-					gaps[k] = '-'
+				for g := range gaps {
+					gaps[g] = '-'
 				}
 
-				refSeqArray[j] = refSeqArray[j][:insertion.start+offsets[j]]
-				refSeqArray[j] = append(refSeqArray[j], gaps...)
-				refSeqArray[j] = append(refSeqArray[j], seqPair.ref[insertion.start+offsets[j]:]...)
+				// (build new slices: the old ones share their arrays with alignedBlock)
+				newRef := make([]byte, 0, len(refSeqArray[j])+insertion.length)
+				newRef = append(newRef, refSeqArray[j][:k]...)
+				newRef = append(newRef, gaps...)
+				newRef = append(newRef, refSeqArray[j][k:]...)
+				refSeqArray[j] = newRef
 
-				queSeqArray[j] = seqPair.query[:insertion.start+offsets[j]]
-				queSeqArray[j] = append(queSeqArray[j], gaps...)
-				queSeqArray[j] = append(queSeqArray[j], seqPair.query[insertion.start+offsets[j]:]...)
-
-				// and we add the relevant offset to account for this insertion in future coordinates
-				offsets[j] += insertion.length
+				newQue := make([]byte, 0, len(queSeqArray[j])+insertion.length)
+				newQue = append(newQue, queSeqArray[j][:k]...)
+				newQue = append(newQue, gaps...)
+				newQue = append(newQue, queSeqArray[j][k:]...)
+				queSeqArray[j] = newQue
 			}
 		}
 	}
